@@ -174,58 +174,27 @@ func (v *Vector[T]) ReadFrom(r io.Reader) (n int64, err error) {
 
 		n += inc
 
-		if cap(*v) < size {
-			*v = make([]T, size)
+		if size < 0 {
+			return n, fmt.Errorf("invalid encoding: negative vector size")
 		}
 
-		*v = (*v)[:size]
+		// The encoded size is not trusted: if the receiver is not already large enough,
+		// the vector is allocated and read by chunks, so that a corrupted size cannot
+		// trigger an allocation much larger than the data available on the stream.
+		if cap(*v) >= size {
+			*v = (*v)[:size]
+			inc, err = readVectorElements(r, *v)
+			return n + inc, err
+		}
 
-		var t T
-		switch any(t).(type) {
-		case uint, uint64, int, int64, float64:
-
-			if inc, err = buffer.ReadAsUint64Slice[T](r, *v); err != nil {
-				return n + inc, fmt.Errorf("buffer.ReadAsUint64Slice[%T]: %w", t, err)
+		*v = (*v)[:0]
+		for len(*v) < size {
+			start := len(*v)
+			*v = append(*v, make([]T, min(size-start, maxReadChunkSize))...)
+			if inc, err = readVectorElements(r, (*v)[start:]); err != nil {
+				return n + inc, err
 			}
-
 			n += inc
-
-		case uint32, int32, float32:
-
-			if inc, err = buffer.ReadAsUint32Slice[T](r, *v); err != nil {
-				return n + inc, fmt.Errorf("buffer.ReadAsUint32Slice[%T]: %w", t, err)
-			}
-
-			n += inc
-
-		case uint16, int16:
-
-			if inc, err = buffer.ReadAsUint16Slice[T](r, *v); err != nil {
-				return n + inc, fmt.Errorf("buffer.ReadAsUint16Slice[%T]: %w", t, err)
-			}
-
-			n += inc
-
-		case uint8, int8:
-
-			if inc, err = buffer.ReadAsUint8Slice[T](r, *v); err != nil {
-				return n + inc, fmt.Errorf("buffer.ReadAsUint8Slice[%T]: %w", t, err)
-			}
-
-			n += inc
-		default:
-
-			if _, isReadable := any(new(T)).(io.ReaderFrom); !isReadable {
-				return 0, fmt.Errorf("vector component of type %T does not comply to %T", t, new(io.ReaderFrom))
-			}
-
-			for i := range *v {
-				if inc, err = any(&(*v)[i]).(io.ReaderFrom).ReadFrom(r); err != nil {
-					var t T
-					return n + inc, fmt.Errorf("%T.ReadFrom: %w", t, err)
-				}
-				n += inc
-			}
 		}
 
 		return n, nil
@@ -233,6 +202,66 @@ func (v *Vector[T]) ReadFrom(r io.Reader) (n int64, err error) {
 	default:
 		return v.ReadFrom(bufio.NewReader(r))
 	}
+}
+
+// maxReadChunkSize is the maximum number of elements that are allocated at once
+// when reading a vector whose encoded size exceeds the capacity of the receiver.
+const maxReadChunkSize = 1 << 16
+
+// readVectorElements reads len(v) elements from r into v.
+func readVectorElements[T any](r buffer.Reader, v []T) (n int64, err error) {
+
+	var inc int64
+
+	var t T
+	switch any(t).(type) {
+	case uint, uint64, int, int64, float64:
+
+		if inc, err = buffer.ReadAsUint64Slice[T](r, v); err != nil {
+			return n + inc, fmt.Errorf("buffer.ReadAsUint64Slice[%T]: %w", t, err)
+		}
+
+		n += inc
+
+	case uint32, int32, float32:
+
+		if inc, err = buffer.ReadAsUint32Slice[T](r, v); err != nil {
+			return n + inc, fmt.Errorf("buffer.ReadAsUint32Slice[%T]: %w", t, err)
+		}
+
+		n += inc
+
+	case uint16, int16:
+
+		if inc, err = buffer.ReadAsUint16Slice[T](r, v); err != nil {
+			return n + inc, fmt.Errorf("buffer.ReadAsUint16Slice[%T]: %w", t, err)
+		}
+
+		n += inc
+
+	case uint8, int8:
+
+		if inc, err = buffer.ReadAsUint8Slice[T](r, v); err != nil {
+			return n + inc, fmt.Errorf("buffer.ReadAsUint8Slice[%T]: %w", t, err)
+		}
+
+		n += inc
+	default:
+
+		if _, isReadable := any(new(T)).(io.ReaderFrom); !isReadable {
+			return 0, fmt.Errorf("vector component of type %T does not comply to %T", t, new(io.ReaderFrom))
+		}
+
+		for i := range v {
+			if inc, err = any(&v[i]).(io.ReaderFrom).ReadFrom(r); err != nil {
+				var t T
+				return n + inc, fmt.Errorf("%T.ReadFrom: %w", t, err)
+			}
+			n += inc
+		}
+	}
+
+	return n, nil
 }
 
 // MarshalBinary encodes the object into a binary form on a newly allocated slice of bytes.
